@@ -85,7 +85,9 @@ def main():
     systems = {}
     for (N, D), row in sorted(tables.items()):
         if N not in systems:
-            agg, ta = build(N, J=30.0, cortime=[40.0 + 17 * i for i in range(N)])
+            agg, ta = build(N, J=30.0,
+                            cortime=[40.0 + 17 * i for i in range(N)],
+                            reorg=[20.0 + 7 * i for i in range(N)])
             systems[N] = (agg.get_Hamiltonian(),
                           agg.get_SystemBathInteraction())
         ham, sbi = systems[N]
@@ -98,6 +100,8 @@ def main():
         ck.case("index-tables", (N, D), nontrivial=D >= 1,
                 sample=dict(nbath=N, depth=D, hsize=real["hsize"],
                             hinds=real["hinds"][:8]))
+        hinds_arr = numpy.array(real["hinds"], dtype=float).reshape(
+            (real["hsize"], N))
         fails = structure_clauses(real, N, D)
         rp = dict(kind="tables", nbath=N, depth=D)
         for f in fails:
@@ -109,8 +113,20 @@ def main():
                     ck.model_drift("table %s differs from the spec for "
                                    "nbath=%d depth=%d (property clauses "
                                    "hold)" % (k, N, D))
+        # bath parameters of every site as supplied (distinct per site)
+        from quantarhei.core.units import cm2int, kB_int
+        want_gamma = numpy.array([1.0 / (40.0 + 17 * i) for i in range(N)])
+        want_lam = numpy.array([(20.0 + 7 * i) * cm2int for i in range(N)])
+        ck.case("bath-parameters", (N, D), nontrivial=N > 1)
+        if (numpy.abs(Hy.gamma - want_gamma).max() > 1e-14 or
+                numpy.abs(Hy.lam - want_lam).max() > 1e-14 or
+                abs(Hy.kBT - kB_int * 300.0) > 1e-14):
+            ck.violation("bath-parameters", "gamma-lam-kBT", dict(
+                nbath=N, depth=D, gamma=Hy.gamma.tolist(),
+                want_gamma=want_gamma.tolist(), lam=Hy.lam.tolist(),
+                want_lam=want_lam.tolist()), rp)
         # Gamma = sum_k n_k gamma_k
-        want = Hy.hinds.dot(Hy.gamma)
+        want = hinds_arr.dot(want_gamma)
         ck.case("gamma", (N, D), nontrivial=D >= 1)
         if numpy.abs(Hy.Gamma - want).max() > 1e-15 * (1 + abs(want).max()):
             ck.violation("decay-factors", "Gamma", dict(nbath=N, depth=D,
@@ -171,42 +187,54 @@ def main():
         if worst > 10 * bound + 1e-10:
             ck.violation("zero-coupling-limit", "propagate", smp0, rp)
 
-    # convergence with depth for uncoupled sites (exactly solvable)
+    # convergence with depth for uncoupled sites (exactly solvable); the two
+    # sites have DIFFERENT baths and every optical and inter-site coherence is
+    # compared with exp(-i w t - g(t))
     nconv = 6 if ck.thorough else 2
     for s in range(nconv):
         N = 2
-        reorg = float(rng.uniform(10, 35))
-        cort = float(rng.uniform(30, 55))
+        reorg = rng.uniform(10, 35, size=N)
+        cort = rng.uniform(30, 55, size=N)
         T = float(rng.uniform(200, 320))
         Nt = 150
         agg, ta = build(N, J=0.0, reorg=reorg, cortime=cort, T=T, Nt=Nt)
         ham = agg.get_Hamiltonian()
         sbi = agg.get_SystemBathInteraction()
+        from quantarhei.core.units import cm2int, kB_int
+        lam = reorg * cm2int
+        gam = 1.0 / cort
+        kBT = kB_int * T
+        t = ta.data
+
+        def gfun(k):
+            return (2 * lam[k] * kBT / gam[k] ** 2 - 1j * lam[k] / gam[k]) * (
+                numpy.exp(-gam[k] * t) + gam[k] * t - 1)
         errs = []
         for depth in (1, 2, 3, 4, 5):
             Hy = hierarchy(ham, sbi, depth)
             prop = KTHierarchyPropagator(ta, Hy)
             rhoi = qr.ReducedDensityMatrix(dim=ham.dim)
-            rhoi.data[0, 0] = 0.5
-            rhoi.data[1, 1] = 0.5
-            rhoi.data[0, 1] = 0.5
-            rhoi.data[1, 0] = 0.5
+            rhoi.data[:, :] = 1.0 / 3.0          # (|0>+|1>+|2>)/sqrt3
             rt = prop.propagate(rhoi).data
-            t = ta.data
-            lam, gam, kBT = Hy.lam[0], Hy.gamma[0], Hy.kBT
-            gt = (2 * lam * kBT / gam ** 2 - 1j * lam / gam) * (
-                numpy.exp(-gam * t) + gam * t - 1)
-            w = ham.data[1, 1] - ham.rwa_energies[1]
-            ref = 0.5 * numpy.exp(-1j * w * t - gt)
-            errs.append(float(numpy.abs(rt[:, 1, 0] - ref).max()))
-        smp = dict(reorg=reorg, cortime=cort, T=T, errors_by_depth=errs)
+            w = numpy.diag(ham.data) - ham.rwa_energies
+            e = 0.0
+            for k in (0, 1):
+                ref = numpy.exp(-1j * w[k + 1] * t - gfun(k)) / 3.0
+                e = max(e, float(numpy.abs(rt[:, k + 1, 0] - ref).max()))
+            # inter-site coherence: independent baths -> exp(-g_1 - g_2^*)
+            ref = numpy.exp(-1j * (w[1] - w[2]) * t - gfun(0)
+                            - numpy.conj(gfun(1))) / 3.0
+            e = max(e, float(numpy.abs(rt[:, 1, 2] - ref).max()))
+            errs.append(e)
+        smp = dict(reorg=reorg.tolist(), cortime=cort.tolist(), T=T,
+                   errors_by_depth=errs)
         ck.case("depth-convergence", ("conv", s), sample=smp)
         mono = all(errs[i + 1] <= errs[i] * 1.001 + 1e-6
                    for i in range(len(errs) - 1))
         if not mono or errs[-1] > max(0.2 * errs[0], 1e-5):
             ck.violation("depth-convergence", "uncoupled-dimer", smp,
-                         dict(kind="convergence", reorg=reorg, cortime=cort,
-                              T=T))
+                         dict(kind="convergence", reorg=reorg.tolist(),
+                              cortime=cort.tolist(), T=T))
 
     ck.assume("TLC bound: baths 1..3 x depth 0..3 (quick), 1..4 x 0..5 "
               "(thorough); the tables of every instance are compared with the "
